@@ -196,6 +196,34 @@ func rulePurgerGuards(r *Report, rule string) {
 		initOK := fs.Init != nil && strings.Contains(stmtRhsStr(fs.Init), ".First()")
 		postOK := fs.Post != nil && strings.Contains(stmtRhsStr(fs.Post), ".Next()")
 		if !initOK || !postOK {
+			// while-style spelling: `k, _ := c.First(); for k != nil { ...; k, _ = c.Next() }`
+			var key types.Object
+			if be, isB := ast.Unparen(fs.Cond).(*ast.BinaryExpr); fs.Cond != nil && isB && be.Op == token.NEQ {
+				if isNilIdent(linfo, be.Y) {
+					key = objOf(linfo, be.X)
+				} else if isNilIdent(linfo, be.X) {
+					key = objOf(linfo, be.Y)
+				}
+			}
+			if key != nil {
+				ast.Inspect(lit.Body, func(m ast.Node) bool {
+					as, ok := m.(*ast.AssignStmt)
+					if !ok || len(as.Lhs) == 0 || objOf(linfo, as.Lhs[0]) != key {
+						return true
+					}
+					inside := as.Pos() >= fs.Pos() && as.End() <= fs.End()
+					if !inside && as.End() <= fs.Pos() && strings.Contains(stmtRhsStr(as), ".First()") {
+						initOK = true
+					}
+					if inside && strings.Contains(stmtRhsStr(as), ".Next()") {
+						postOK = true
+						// a `continue` would skip the advance: not an early exit (it would loop forever), not our business
+					}
+					return true
+				})
+			}
+		}
+		if !initOK || !postOK {
 			full = false
 		}
 		ast.Inspect(fs.Body, func(m ast.Node) bool {
